@@ -1295,7 +1295,7 @@ func init() {
 			runOptionSources(c, r, []string{"Concurrency"})
 		})
 	})
-	imported("C01", "C01.R9", "the exported iteration samples are observed on the live series (nothing cached across Reset): shared with C16.R3", "C16", []string{"C16.R3"}, keyContains("#observe"), 1)
+	imported("C01", "C01.R9", "the exported iteration samples are those of this run: every metric vector is reset at run start and observed on the live series (nothing cached across Reset): shared with C16.R3", "C16", []string{"C16.R3"}, keyContains("#observe", "Metrics.Reset#"), 1)
 	imported("C01", "C01.R10", "an iteration is reported by its own handle: every pool gets freshly built per-worker states (shared with C07.R5)", "C07", []string{"C07.R5"}, nil, 1)
 	imported("C06", "C06.R7", "a failure or panic inside a cleanup is classified and routed to the teardown-failed flag (shared with C07.R2, C07.R3), and every pool builds its own per-worker handles so that a body's cleanups run on that body's handle (C07.R5)", "C07", []string{"C07.R2", "C07.R3", "C07.R5"}, nil, 6)
 	imported("C08", "C08.R7", "a failing setup cleanup reaches the verdict: the failure APIs route a failure raised while tearing down to the teardown-failed flag (shared with C07.R2, C07.R3)", "C07", []string{"C07.R2", "C07.R3"}, nil, 5)
